@@ -2749,7 +2749,12 @@ class HasTraits(CHasTraits, metaclass=MetaHasTraits):
                         self._sync_trait_items_modified, trait_name + "_items"
                     )
             dic[key] = value
-            setattr(object, alias, getattr(self, trait_name))
+            try:
+                setattr(object, alias, getattr(self, trait_name))
+            except BaseException:
+                # The other object did not accept the value: no link.
+                self.sync_trait(trait_name, object, alias, False, True)
+                raise
 
         if mutual:
             object.sync_trait(alias, self, trait_name, False)
